@@ -322,4 +322,44 @@ theorem lgmres_converged_guess_unchanged (prm : LGMRES.Params K) (ip : Vec K →
 
 end second
 
+/-! ### non-vacuity (second package) and the documented exception, over `ℚ`
+
+`sqrt := fun _ => 1` keeps the numbers small (the theorems hold for every function `sqrt`). -/
+section nonvacuous2
+
+private def B₀ : CRS ℚ := ⟨2, #[[(0, 2), (1, 1)], [(0, 1), (1, 3)]]⟩
+private def d₁ : Call ℚ := ⟨B₀, fun v => vcopy v, #[1, 3], #[0, 0]⟩
+private def d₂ : Call ℚ := ⟨A₀, fun v => spmv 1 M₀ v 0 #[], #[1, 3], #[1, 0]⟩
+private def gmPrm : GMRES.Params ℚ :=
+  { maxiter := 3, tol := 0, abstol := 0, nsSearch := false, M := 2, pside := .right }
+private def lgPrm (reset : Bool) : LGMRES.Params ℚ :=
+  { maxiter := 2, tol := 0, abstol := 0, nsSearch := false, M := 1, K' := 1, alwaysReset := reset, pside := .right }
+
+/-- a history of three GMRES(2) calls (each restarts once) on one object equals three fresh calls -/
+example : history (GMRES.call gmPrm stdIp (fun _ => 1) 0) (GMRES.Work.fresh 2) [d₁, d₂, d₁]
+    = [d₁, d₂, d₁].map (fun c => (GMRES.call gmPrm stdIp (fun _ => 1) 0 (GMRES.Work.fresh 2) c).1) :=
+  gmres_history_eq_fresh gmPrm stdIp (fun _ => 1) 0 _ _ _
+example : (GMRES.call gmPrm stdIp (fun _ => 1) 0 (GMRES.Work.fresh 2) d₁).1.1 = .ok (3, 1) := by decide +kernel
+
+/-- **LGMRES with `always_reset = false` is the documented exception of the property**: the SAME call made twice on
+one object returns two different vectors `x` — the second call augments its Krylov space with the update of the
+first one (`outer_v` survives the call). -/
+example : ((history (LGMRES.call (lgPrm false) stdIp (fun _ => 1) 0) (LGMRES.Work.fresh 2) [d₁, d₁]).map (·.2))
+    = [#[166968037230485/5843854536360724, 500901435020825/5843854536360724],
+       #[960969622406369773212596725137206215/33633937140973941234058135626309199181,
+         2882908868771428725685183823482091680/33633937140973941234058135626309199181]] := by decide +kernel
+
+/-- … whereas with `always_reset = true` both calls return the same vector -/
+example : ((history (LGMRES.call (lgPrm true) stdIp (fun _ => 1) 0) (LGMRES.Work.fresh 2) [d₁, d₁]).map (·.2))
+    = [#[166968037230485/5843854536360724, 500901435020825/5843854536360724],
+       #[166968037230485/5843854536360724, 500901435020825/5843854536360724]] := by decide +kernel
+
+/-- zero right-hand side and converged guess are inhabited for GMRES -/
+example : (GMRES.run gmPrm stdIp id (1/8) B₀ d₁.P (GMRES.Work.fresh 2) #[0, 0] #[5, 7]).obs
+    = (.ok (0, 0), #[0, 0]) := by decide +kernel
+example : (GMRES.run { gmPrm with tol := 1/2 } stdIp id 0 B₀ d₁.P (GMRES.Work.fresh 2) #[2, 1] #[1, 0]).obs
+    = (.ok (0, 0), #[1, 0]) := by decide +kernel
+
+end nonvacuous2
+
 end Amgcl.C15
